@@ -1,4 +1,5 @@
 """Shared machinery for the potential-form properties (C06, C07, C10)."""
+import ast
 import os
 import re
 
@@ -44,6 +45,23 @@ def standard_registry(P, J=None):
     if not isinstance(labels, ListV) or not all(isinstance(x, Const) for x in labels.items):
         raise AnalysisError("Potential_Form_Registry.registered is not a concrete list of labels")
     return J, robj, [x.v for x in labels.items]
+
+
+def tableform_classes(P):
+    """the interpolation classes the table-form builder finds by introspection of atsim.potentials.tableforms: classes whose
+    class body sets is_potential = True, with their config_label -> [(label, ClassInfo)]"""
+    mod = P.module("atsim.potentials.tableforms")
+    out = []
+    for ci in sorted((c for c in P.classes.values() if c.module is mod), key=lambda c: c.node.lineno):
+        flag = ci.class_attrs.get("is_potential")
+        lab = ci.class_attrs.get("config_label")
+        if isinstance(flag, ast.Constant) and flag.value is True:
+            if not (isinstance(lab, ast.Constant) and isinstance(lab.value, str)):
+                raise AnalysisError("table form class %s has no literal config_label" % ci.name)
+            out.append((lab.value, ci))
+    if not out:
+        raise AnalysisError("no interpolation class found in atsim.potentials.tableforms")
+    return out
 
 
 def real_potential(P, defn):
